@@ -4,13 +4,12 @@ CONSTANTS
   ConsumerSet = {"c1", "c2"}
   StreamSet = {"sa", "sb"}
   MaxParts = 2
-  MaxOps = 5
+  MaxOps = 3
   MaxDeletes = 1
   Coords = {"A"}
   MaxRestores = 1
-  MaxPauseOps = 0
-  Shapes = {"plain", "dup"}
+  MaxPauseOps = 2
+  Shapes = {"plain"}
   GetDs = {}
-INVARIANTS Raw_Converged
 VIEW MCView
 CHECK_DEADLOCK FALSE
